@@ -214,8 +214,8 @@ PROPS = {
         level_note="A recovered Go panic or a fatal stack overflow is a violation; allocation aborts and hangs are C09's subject and only counted. Trusts the worker protocol and the Go runtime.",
         rule=("rapid-generated and enumerated (entry point, byte string[, FrameInfo]). Non-trivial: the input still starts with the family's start marker (it reaches real parsing) and differs from its valid parent. Distinct = hash of the case."),
         assumptions=COMMON_ASSUME,
-        quick=dict(shards=16, checks=1500, extra=["TestValid", dict(run="TestTruncations", shards=8), dict(run="TestHeaderBytes", shards=8), dict(run="TestRLEGrammar", shards=4), dict(run="TestHeaders", shards=16), dict(run="TestPairBytes", shards=8), dict(run="TestJ2KFields", shards=8), dict(run="TestTilePartHeaders", shards=4), dict(run="TestPacketGrammar", shards=8), dict(run="TestHTBlockTails", shards=8)], timeout=900, parallel=16),
-        thorough=dict(shards=16, checks=15000, extra=["TestValid", dict(run="TestTruncations", shards=8), dict(run="TestHeaderBytes", shards=16), dict(run="TestRLEGrammar", shards=8), dict(run="TestHeaders", shards=16), dict(run="TestPairBytes", shards=16), dict(run="TestJ2KFields", shards=8), dict(run="TestTilePartHeaders", shards=4), dict(run="TestPacketGrammar", shards=8), dict(run="TestHTBlockTails", shards=8)], timeout=3400, fuzztime=600),
+        quick=dict(shards=16, checks=1500, extra=["TestValid", dict(run="TestTruncations", shards=8), dict(run="TestHeaderBytes", shards=8), dict(run="TestRLEGrammar", shards=4), dict(run="TestHeaders", shards=16), dict(run="TestPairBytes", shards=8), dict(run="TestJ2KFields", shards=8), dict(run="TestTilePartHeaders", shards=4), dict(run="TestPacketGrammar", shards=8), dict(run="TestHTBlockTails", shards=8), dict(run="TestSegmentInsert", shards=4)], timeout=900, parallel=16),
+        thorough=dict(shards=16, checks=15000, extra=["TestValid", dict(run="TestTruncations", shards=8), dict(run="TestHeaderBytes", shards=16), dict(run="TestRLEGrammar", shards=8), dict(run="TestHeaders", shards=16), dict(run="TestPairBytes", shards=16), dict(run="TestJ2KFields", shards=8), dict(run="TestTilePartHeaders", shards=4), dict(run="TestPacketGrammar", shards=8), dict(run="TestHTBlockTails", shards=8), dict(run="TestSegmentInsert", shards=4)], timeout=3400, fuzztime=600),
     ),
     "C09": dict(
         pkg="c0809", env={"VERIF_PROP": "C09"},
@@ -225,7 +225,7 @@ PROPS = {
         level_note="Peak heap is the sampled live-heap growth (1 ms sampler, GC percent 10) and is only consulted when the cumulative allocation already exceeds the budget; hangs that need deep un-generated state stay unseen.",
         rule=("rapid-generated and enumerated (entry point, byte string[, FrameInfo]). Non-trivial: the input starts with the family's start marker, differs from its valid parent and the pre-parser found a frame header (the budget formula was exercised). Distinct = hash of the case."),
         assumptions=COMMON_ASSUME + ["getrusage(RUSAGE_THREAD) of the locked decoding thread is a lower bound of the call's wall time"],
-        quick=dict(shards=16, checks=1500, extra=["TestValid", dict(run="TestTruncations", shards=8), dict(run="TestHeaderBytes", shards=8), dict(run="TestRLEGrammar", shards=4), dict(run="TestHeaders", shards=16), dict(run="TestPairBytes", shards=8), dict(run="TestJ2KFields", shards=8), dict(run="TestTilePartHeaders", shards=4), dict(run="TestPacketGrammar", shards=8), dict(run="TestHTBlockTails", shards=8)], timeout=900, parallel=16),
-        thorough=dict(shards=16, checks=15000, extra=["TestValid", dict(run="TestTruncations", shards=8), dict(run="TestHeaderBytes", shards=16), dict(run="TestRLEGrammar", shards=8), dict(run="TestHeaders", shards=16), dict(run="TestPairBytes", shards=16), dict(run="TestJ2KFields", shards=8), dict(run="TestTilePartHeaders", shards=4), dict(run="TestPacketGrammar", shards=8)], timeout=3400),
+        quick=dict(shards=16, checks=1500, extra=["TestValid", dict(run="TestTruncations", shards=8), dict(run="TestHeaderBytes", shards=8), dict(run="TestRLEGrammar", shards=4), dict(run="TestHeaders", shards=16), dict(run="TestPairBytes", shards=8), dict(run="TestJ2KFields", shards=8), dict(run="TestTilePartHeaders", shards=4), dict(run="TestPacketGrammar", shards=8), dict(run="TestHTBlockTails", shards=8), dict(run="TestSegmentInsert", shards=4)], timeout=900, parallel=16),
+        thorough=dict(shards=16, checks=15000, extra=["TestValid", dict(run="TestTruncations", shards=8), dict(run="TestHeaderBytes", shards=16), dict(run="TestRLEGrammar", shards=8), dict(run="TestHeaders", shards=16), dict(run="TestPairBytes", shards=16), dict(run="TestJ2KFields", shards=8), dict(run="TestTilePartHeaders", shards=4), dict(run="TestPacketGrammar", shards=8), dict(run="TestHTBlockTails", shards=8), dict(run="TestSegmentInsert", shards=4)], timeout=3400),
     ),
 }
